@@ -1,6 +1,81 @@
 ----------------------------- MODULE IndexProps -----------------------------
-EXTENDS Trees
-F_IndexOps(Ts, Vs, args, res) == {}
-F_HashPairs(Ts, Vs, res) == {}
-F_Quartets(args, res) == {}
+(***************************************************************************)
+(* Layer P for C04 beyond index freshness (EditProps.F_IndexFresh):         *)
+(*  - branches of trees on the same taxa compare equal exactly when they    *)
+(*    define the same split, and equal splits hash equally, whatever the    *)
+(*    rooting, orientation or child order (F_HashPairs);                    *)
+(*  - the split-keyed index answers like a plain map split -> value         *)
+(*    through any sequence of insertions, overwrites and resizes            *)
+(*    (F_IndexOps; the model of the bucket structure is EdgeIndex.tla);     *)
+(*  - the same equality/hash agreement for quartets (F_Quartets).           *)
+(***************************************************************************)
+EXTENDS CalcProps
+
+EdgeNode(V, e)  == CHOOSE n \in NonRoot(V) : V.br[n].id = e
+EdgeSplit(V, e) == SplitOf(V, EdgeNode(V, e))
+
+\* res.same[e][f], res.heq[e][f] : SameBipartition / HashEquals of branch e of tree 1 and branch f of tree 2
+F_HashPairs(Ts, Vs, res) ==
+  LET E1 == EdgeIds(Ts[1])
+      E2 == EdgeIds(Ts[2])
+      s1 == TLCEval([e \in E1 |-> EdgeSplit(Vs[1], e)])
+      s2 == TLCEval([e \in E2 |-> EdgeSplit(Vs[2], e)])
+  IN  IF Vs[1].names # Vs[2].names THEN {"HashPairsSameTaxa"}
+      ELSE Fail("EqualSplitsHashEqually", \A e \in E1, f \in E2 : s1[e] = s2[f] => Ts[1].idx[e].h = Ts[2].idx[f].h)
+           \cup Fail("SameBipartitionIffSameSplit", \A e \in E1, f \in E2 : res.same[e][f] = (s1[e] = s2[f]))
+           \cup Fail("HashEqualsIffSameSplit", \A e \in E1, f \in E2 : res.heq[e][f] = (s1[e] = s2[f]))
+           \cup Fail("EqualSplitsHashEquallyWithinTree",
+                     \A i \in {1, 2} : \A e, f \in EdgeIds(Ts[i]) :
+                        EdgeSplit(Vs[i], e) = EdgeSplit(Vs[i], f) => Ts[i].idx[e].h = Ts[i].idx[f].h)
+
+-----------------------------------------------------------------------------
+(* the index against a plain map.  args.ops[i] = [op, t, e, cnt] : branch e of tree t is the key;      *)
+(* res.results[i] = [ok, cnt, len]; res.final = sequence of [t, e, cnt] (stored key branch and count)  *)
+
+OpSplit(Vs, o) == EdgeSplit(Vs[o.t], o.e)
+OpLen(Ts, o)   == Ts[o.t].E[o.e].len
+
+RECURSIVE IdxFold(_, _, _, _, _, _, _)
+IdxFold(Ts, Vs, ops, rs, i, plain, bad) ==
+  IF i > Len(ops) THEN [plain |-> plain, bad |-> bad]
+  ELSE LET o == ops[i]
+           s == OpSplit(Vs, o)
+           l == OpLen(Ts, o)
+           has == s \in DOMAIN plain
+       IN  CASE o.op = "Put" ->
+                  IdxFold(Ts, Vs, ops, rs, i + 1,
+                          [x \in DOMAIN plain \cup {s} |-> IF x = s THEN [cnt |-> o.cnt, len |-> l] ELSE plain[x]], bad)
+             [] o.op = "Add" ->
+                  IdxFold(Ts, Vs, ops, rs, i + 1,
+                          [x \in DOMAIN plain \cup {s} |->
+                             IF x = s THEN (IF has THEN [cnt |-> plain[s].cnt + 1, len |-> plain[s].len + l] ELSE [cnt |-> 1, len |-> l])
+                             ELSE plain[x]], bad)
+             [] OTHER -> \* Value
+                  LET r  == rs[i]
+                      ok == IF has THEN r.ok /\ r.cnt = plain[s].cnt /\ r.len = plain[s].len ELSE ~r.ok
+                  IN  IdxFold(Ts, Vs, ops, rs, i + 1, plain, IF ok THEN bad ELSE bad \cup {i})
+
+F_IndexOps(Ts, Vs, args, res) ==
+  LET r     == IdxFold(Ts, Vs, args.ops, res.results, 1, [x \in {} |-> 0], {})
+      final == {<<EdgeSplit(Vs[res.final[i].t], res.final[i].e), res.final[i].cnt>> : i \in 1..Len(res.final)}
+  IN  Fail("IndexLookupsLikePlainMap", r.bad = {})
+      \cup Fail("IndexContentLikePlainMap",
+                /\ Len(res.final) = Cardinality(DOMAIN r.plain)
+                /\ final = {<<s, r.plain[s].cnt>> : s \in DOMAIN r.plain})
+
+-----------------------------------------------------------------------------
+(* quartets: args.quads[i] = <<t1,t2,t3,t4>> meaning (t1,t2)|(t3,t4)       *)
+
+QTaxa(q) == {q[1], q[2], q[3], q[4]}
+QTopo(q) == {{q[1], q[2]}, {q[3], q[4]}}
+
+F_Quartets(args, res) ==
+  LET Q == args.quads
+      n == Len(Q)
+  IN  Fail("QuartetHashEqualsIffSameTaxa", \A i, j \in 1..n : res.eq[i][j] = (QTaxa(Q[i]) = QTaxa(Q[j])))
+      \cup Fail("QuartetEqualHashWhenEqual", \A i, j \in 1..n : QTaxa(Q[i]) = QTaxa(Q[j]) => res.h[i] = res.h[j])
+      \cup Fail("QuartetCompare",
+                \A i, j \in 1..n :
+                   res.cmp[i][j] = IF QTaxa(Q[i]) # QTaxa(Q[j]) THEN 2 ELSE IF QTopo(Q[i]) = QTopo(Q[j]) THEN 0 ELSE 1)
+
 =============================================================================
